@@ -95,6 +95,14 @@ def requires(*props):
     return deco
 
 
+def bounded(what):
+    """mark an ensures clause as a bounded stand-in (reported separately, never counted as proved)"""
+    def deco(f):
+        f._bounded = what
+        return f
+    return deco
+
+
 def ensures(*props):
     def deco(f):
         f._clause_kind = "ensures"
@@ -159,8 +167,27 @@ def has_key(d, k):
     return k in d
 
 
+_ORIGIN = {}      # id(snapshot copy) -> id(original): lets native clauses ask `same_object(new, old.x)`
+
+
+def snapshot(v):
+    """deep copy that remembers which object each copy stands for"""
+    if isinstance(v, dict):
+        c = {k: snapshot(x) for k, x in v.items()}
+    elif isinstance(v, list):
+        c = [snapshot(x) for x in v]
+    else:
+        return v
+    _ORIGIN[id(c)] = id(v)
+    _KEEP.append((c, v))
+    return c
+
+
+_KEEP = []
+
+
 def same_object(a, b):
-    return a is b
+    return a is b or _ORIGIN.get(id(a)) == id(b) or _ORIGIN.get(id(b)) == id(a)
 
 
 def re_sub_class_plus(chars, repl, s):
@@ -191,6 +218,22 @@ def longest_key_prefix(s):
     from html.entities import html5
     c = [k for k in html5 if s.startswith(k)]
     return max(c, key=len) if c else None
+
+
+def remove_suffix(v, rest):
+    return v[:len(v) - len(rest)] if v.endswith(rest) else v
+
+
+def is_fresh(obj):
+    return isinstance(obj, (list, dict, set))      # natively only the type can be checked
+
+
+def method_name(m):
+    return None if m is None else m.__name__
+
+
+def appended(old, new):
+    return list(new)[len(old):]
 
 
 def assume_lemma(name, fact):
